@@ -388,11 +388,12 @@ def run(chk):
                         inputs[str(ival(v))] = ival(v)
                     immv = [bv(imm[0], 8)] if name == 'Exp' else []
                     reff2 = (lambda im, a, reff=reff, imm=imm: reff(imm, a)) if name == 'Exp' else reff
-                    check_simple(chk, it, step_fn, name, immv, arity, reff2, vals, pcx, inputs,
-                                 'depth%d-b%d-v%d%s' % (depth, bl, vl, ('-k%d' % imm[0]) if imm else ''))
+                    if len(chk.deferred) < 8:  # an unsupported construct in step() shows up once per run: no point in 700 copies
+                        chk.guard(check_simple, chk, it, step_fn, name, immv, arity, reff2, vals, pcx, inputs,
+                                  'depth%d-b%d-v%d%s' % (depth, bl, vl, ('-k%d' % imm[0]) if imm else ''))
                     n_lemmas += 1
     chk.extra['single_step_runs'] = n_lemmas
-    other_opcodes(chk, it, step_fn, quick)
+    chk.guard(other_opcodes, chk, it, step_fn, quick)
     tv(chk)
 
 
